@@ -175,6 +175,13 @@ def check_state(f, t, y):
     tol = 1e-9 * abs(rate) * max(1.0, worst * 1e-5)
     totN = float(dNs.sum() + sum(x.sum() for x in dNr))
     pre = t < f.tcc
+    if not pre and rate != 0:
+        # nothing can be depleted: no star bin and no populated remnant bin has a mean mass below the depletion mass
+        star_ok = bool(np.any(fin & (ms < f.md)))
+        rem_ok = any(bool(np.any((n > 0) & (np.where(n > 0, m / np.where(n > 0, n, 1.0), np.inf) < f.md))) for n, m in zip(Nr, Mr))
+        if not star_ok and not rem_ok:
+            return {"clause": "loss summed over all bins equals the rate", "branch": "post", "nothing_depletable": True,
+                    "observed": repr(totN), "expected": repr(rate), "md": repr(float(f.md))}
     if f._esc_norm == "N":
         if abs(totN - rate) > tol:
             return {"clause": "loss summed over all bins equals the rate (norm N)", "branch": "pre" if pre else "post", "observed": repr(totN), "expected": repr(rate)}
@@ -338,8 +345,12 @@ def replay(ctx, fi):
 def classify(entry, failure):
     """C03-slope-secant: the slope rule is the secant of d ln N/dt between the bin edges, so the mass change implied by the
     evolving slopes matches the rate only to O((ln hi/lo)²); listed when the residual is within 2·max (ln hi/lo)² of the rate"""
+    obs = failure.get("observed") or {}
+    if entry.get("classifier") == "nothing_depletable":
+        # C03-nothing-depletable: after core collapse the normalisation is a sum over bins lighter than the depletion mass; when there
+        # is none the requested rate is silently not removed (all updates are masked out, B = rate/0)
+        return bool(obs.get("nothing_depletable"))
     if entry.get("classifier") != "slope_secant_residual":
         return False
-    obs = failure.get("observed") or {}
     return (str(obs.get("clause", "")).startswith("mass loss incl. the change implied by evolving slopes")
             and obs.get("rel_err") is not None and obs["rel_err"] <= 2.0 * obs["w2"] + 1e-6)
